@@ -3,10 +3,10 @@ package main
 // C05 — decoding terminates with work and memory bounded by the frame size.
 
 import (
-	"math"
 	"fmt"
 	"go/token"
 	"go/types"
+	"math"
 	"strings"
 
 	"golang.org/x/tools/go/ssa"
@@ -29,6 +29,8 @@ func init() {
 		{Name: "string-allocated-before-check", Rule: "R5.2", Where: "(*bindata).UnmarshalBinary", Edits: []Edit{{"wiretypes.go", "\tif len(data) < length+2 {\n\t\treturn unmarshalErr(v, \"\", \"missing data\")\n\t}\n\tif length == 0 {\n\t\treturn nil\n\t}\n\t*v = make([]byte, length)\n", "\tif length == 0 {\n\t\treturn nil\n\t}\n\t*v = make([]byte, length)\n\tif len(data) < length+2 {\n\t\treturn unmarshalErr(v, \"\", \"missing data\")\n\t}\n"}}},
 		{Name: "get-loses-stickiness", Rule: "R5.0", Where: "(*buffer).get", Edits: []Edit{{"buffer.go", "func (b *buffer) get(v wireType) {\n\tif b.err != nil {\n\t\treturn\n\t}\n", "func (b *buffer) get(v wireType) {\n"}}},
 		{Name: "vbi-guard-dropped", Rule: "R5.1", Where: "(*vbint).ReadFrom", Edits: []Edit{{"wiretypes.go", "\t\tif multiplier > 128*128*128 {\n\t\t\treturn i, unmarshalErr(v, \"\", \"size exceeded\")\n\t\t}\n\t\tif encodedByte&128 == 0 {\n\t\t\tbreak\n\t\t}", "\t\tif encodedByte&128 == 0 {\n\t\t\tbreak\n\t\t}"}}},
+		{Name: "adv4-B-scan-of-the-rest-per-property", Rule: "R5.4", Where: "getAny", Edits: []Edit{{"buffer.go", "import (\n\t\"fmt\"\n)", "import (\n\t\"bytes\"\n\t\"fmt\"\n)"}, {"buffer.go", "\tfor b.i < end {\n\t\tb.get(&id)", "\tfor b.i < end {\n\t\tif bytes.IndexByte(b.data[b.i:], 0) == 0 {\n\t\t\tb.err = fmt.Errorf(\"zero property id\")\n\t\t\treturn\n\t\t}\n\t\tb.get(&id)"}}},
+		{Name: "scan-of-one-byte-per-property", Silent: true, Edits: []Edit{{"buffer.go", "import (\n\t\"fmt\"\n)", "import (\n\t\"bytes\"\n\t\"fmt\"\n)"}, {"buffer.go", "\tfor b.i < end {\n\t\tb.get(&id)", "\tfor b.i < end {\n\t\tif b.i < len(b.data) && bytes.IndexByte(b.data[b.i:b.i+1], 0) == 0 {\n\t\t\tb.err = fmt.Errorf(\"zero property id\")\n\t\t\treturn\n\t\t}\n\t\tb.get(&id)"}}},
 		{Name: "user-properties-clipped-before-each-append", Rule: "R5.4", Where: "appendUserProperty", Edits: []Edit{
 			{"userprop.go", "\t*p = append(*p, prop)", "\t*p = append(slices.Clip(*p), prop)"},
 			{"userprop.go", "import (\n", "import (\n\t\"slices\"\n"}}},
@@ -454,6 +456,12 @@ func checkC05(p *Prog, c *Check) {
 						case *ssa.Slice:
 							if _, isPrm := y.X.(*ssa.Parameter); isPrm && y.High == nil {
 								openTail = true
+							}
+							// the rest of a reader's data, b.data[b.i:]
+							if ld, isLoad := y.X.(*ssa.UnOp); isLoad && ld.Op == token.MUL && y.High == nil {
+								if _, isField := ld.X.(*ssa.FieldAddr); isField {
+									openTail = true
+								}
 							}
 						}
 						if openTail {
